@@ -309,6 +309,9 @@ def _expected_token(entry):
 def check_case(ctx: Ctx, c: dict):
     if c.get("k") == "cli-stress":
         return cli_stress(ctx, c)
+    if c.get("k") == "terminal-switch":
+        from .termid import check_terminal_switch
+        return check_terminal_switch(ctx, c, "C08")
     d = ctx.driver("drv_e2e")
     td = tempfile.mkdtemp(prefix="vc08")
     clock = Clock()
@@ -632,6 +635,8 @@ def cases(ctx: Ctx):
             for method in ("direct", "file"):
                 yield dict(k="cli-stress", procs=procs, per_proc=3, space=space, sub=sub, method=method, seed=rng.randrange(1000),
                            pool=[["png", 8, 8, rng.randrange(1 << 30)] for _ in range(4)])
+    from . import termid
+    yield from termid.cases(rng, 40 if ctx.quick else 400)
     n = 600 if ctx.quick else 6000
     for i in range(n):
         nterm = rng.choice([1, 1, 2, 3])
@@ -714,4 +719,4 @@ def run(ctx: Ctx):
             ctx.count("skipped-over-budget")
             continue
         check_case(ctx, c)
-        ctx.case(c, nontrivial=(c.get("k") == "cli-stress" or len(c["requests"]) >= 3))
+        ctx.case(c, nontrivial=(c.get("k") in ("cli-stress", "terminal-switch") or len(c["requests"]) >= 3))
